@@ -11,6 +11,7 @@ require (
 	github.com/opencontainers/go-digest v1.0.0
 	github.com/opencontainers/image-spec v1.1.1
 	github.com/veraison/go-cose v1.3.0
+	oras.land/oras-go/v2 v2.5.0
 )
 
 require (
@@ -24,7 +25,6 @@ require (
 	golang.org/x/crypto v0.37.0 // indirect
 	golang.org/x/mod v0.24.0 // indirect
 	golang.org/x/sync v0.10.0 // indirect
-	oras.land/oras-go/v2 v2.5.0 // indirect
 )
 
 replace github.com/notaryproject/notation-go => /repo
